@@ -113,7 +113,7 @@ def not_found(ns): return Opaque('StdError::NotFound', Str(str(ns)))
 def _ns_new(it, a, c): return Agg('NS', [sval(a[0]).s])
 
 
-@model('cw_storage_plus::Item::load')
+@model('cw_storage_plus::Item::load', 'cw_storage_plus::item::Item::load')
 def _item_load(it, a, c):
     ns = ns_of(a[0]); it.world.reads.append(ns)
     if ns not in it.world.storage: return ERR(not_found(ns))
